@@ -5,9 +5,10 @@ import numpy as np
 from hypothesis import strategies as st
 
 from vf.harness import Check
+from vf.gen.util import weighted
 from vf.gen import lens as GL
 from vf.gen.build import build
-from vf.gen.edit import edit_strategy, build_with_history, warm_all, ALL_KINDS
+from vf.gen.edit import edit_strategy, build_with_history, warm_all, WITH_SCALE
 from vf.ref import trace as RT
 from vf.checks.c02 import ray_bundle
 
@@ -29,8 +30,13 @@ class C16(Check):
         return (300, 8) if tier == 'quick' else (3000, 16)
 
     def strategy(self, tier):
-        return st.fixed_dictionaries(dict(spec=GL.lens_spec('intensity'), rays=ray_bundle(), wl=st.integers(0, 3),
-                                          edit=edit_strategy(ALL_KINDS, p_none=4)))
+        main = st.fixed_dictionaries(dict(spec=GL.lens_spec('intensity'), rays=ray_bundle(), wl=st.integers(0, 3),
+                                          edit=edit_strategy(WITH_SCALE, p_none=4)))
+        # lenses of planes and conics with apertures and obscurations that are rescaled with scale_system() before the trace
+        scaled = st.fixed_dictionaries(dict(spec=GL.lens_spec('scalable'), rays=ray_bundle(), wl=st.integers(0, 3),
+                                            edit=st.fixed_dictionaries(dict(kind=st.just('scale'), s=st.integers(0, 1000),
+                                                                            f=st.floats(0.8, 1.25)))))
+        return weighted((5, main), (1, scaled))
 
     def describe(self, case):
         s = case['spec']
